@@ -160,11 +160,16 @@ func judgeC07(sc *BatchSc, x *batchExec, br batchRun, fail string) Verdict {
 	if fail != "" && !goroutinesRemain(fail) {
 		return bad("C07:bubble", "%s", fail)
 	}
+	if br.Rejected {
+		return ok(false, "prep-form-rejected")
+	}
 	if br.Panic != "" {
 		return bad("C07:panic", "run panicked: %s", br.Panic)
 	}
 	if sc.LiveSlackMs > 0 && br.CtxErr != nil {
-		return inconclusive("a deadline placed after the natural end of the batch run expired during it")
+		// this run took longer than the reference run (start order and waits need not be
+		// reproducible): the deadline was not "beyond the end", nothing to assert
+		return ok(false, "live-deadline-expired")
 	}
 	if fp, msg := judgeItems("C07", sc, x, br); msg != "" {
 		return bad(fp, "%s", msg)
